@@ -462,6 +462,10 @@ def jobs(tier: str):
     for cls, n in (("stream", 2), ("sse", 1)):
         v = dict(kind="asgi", cls=cls, items=n, producer="object", name=f"asgi/{cls}/n{n}/iterator-object-with-aclose/disconnect", weight=60)
         out.extend(_split(v, 9) if cls == "sse" else [v])
+    # ... and with a producer that never waits: the relay is parked in the full hand-off queue when the client leaves, the iterator object is
+    # suspended at its yield and only aclose() runs its cleanup
+    v = dict(kind="asgi", cls="sse", items=3, fast_producer=True, producer="object", name="asgi/sse/n3/iterator-object-with-aclose/fast-producer", weight=300)
+    out.extend(_split(v, 8))
     # a field-less event in the middle of the stream
     out.append(dict(kind="asgi", cls="sse", items=3, fast_producer=True, never_disconnect=True, empty_event_at=1, name="asgi/sse/n3/empty-event-in-the-middle", weight=100))
     # a long backlog produced without ever waiting (in-memory data): 8 items, the hand-off must pace the producer
